@@ -230,6 +230,38 @@ class ClassRef:
         self.name = name
 
 
+class RecordType:
+    """A module-level namedtuple type."""
+    def __init__(self, name, fields):
+        self.name = name
+        self.fields = fields
+
+
+class ARecord(tuple):
+    """An instance of a namedtuple type: an immutable tuple whose positions also have names."""
+    def __new__(cls, vals, fields):
+        o = tuple.__new__(cls, vals)
+        o.fields = fields
+        return o
+
+
+def module_record_types(model):
+    out = {}
+    for tree in model.trees.values():
+        for st in tree.body:
+            if isinstance(st, ast.Assign) and len(st.targets) == 1 and isinstance(st.targets[0], ast.Name) and isinstance(st.value, ast.Call) and \
+                    ast.unparse(st.value.func) in ("namedtuple", "collections.namedtuple") and len(st.value.args) == 2 and not st.value.keywords:
+                f = st.value.args[1]
+                fields = None
+                if isinstance(f, (ast.List, ast.Tuple)) and all(isinstance(e, ast.Constant) and isinstance(e.value, str) for e in f.elts):
+                    fields = [e.value for e in f.elts]
+                elif isinstance(f, ast.Constant) and isinstance(f.value, str):
+                    fields = f.value.replace(",", " ").split()
+                if fields:
+                    out[st.targets[0].id] = fields
+    return out
+
+
 class BoundMethod:
     def __init__(self, obj, fn, owner):
         self.obj = obj
@@ -257,8 +289,27 @@ class DictMethod:
 class LayerTable:
     """Abstract `node_list`: records what is done to it."""
 
-    def __init__(self, interp):
+    def __init__(self, interp, base_depth=None):
         self.interp = interp
+        self.base_depth = base_depth      # depth of the tree when the table was set up: the table then holds base_depth + 1 layers
+        self.appended = []                # layer objects appended since (they are concrete lists the code may go on filling)
+
+    def resolve(self, i):
+        """The concrete list object of a layer appended during this run when the index designates one, else None."""
+        if not self.appended:
+            return None
+        if isinstance(i, int) and not isinstance(i, bool) and i < 0:
+            return self.appended[i] if -i <= len(self.appended) else None
+        if self.base_depth is None:
+            return None
+        try:
+            si = _sym(i)
+        except Exception:
+            return None
+        for k, layer in enumerate(self.appended):
+            if equal_terms(si, _sym(self.base_depth) + 1 + k):
+                return layer
+        return None
 
 
 class LayerSlot:
@@ -419,6 +470,8 @@ class Interp:
                     raise Unsupported("augmented op on node_list")
                 for layer in self.as_iter(v):
                     self.events.append(("append", layer, s))
+                    if isinstance(layer, AList):
+                        cur.appended.append(layer)
                 return
             if isinstance(cur, AList) and isinstance(s.op, ast.Add):
                 self.note_mutation(cur, s)
@@ -718,6 +771,10 @@ class Interp:
                 return Namespace("builtins." + e.id)
             if e.id in self.model.classes:
                 return ClassRef(e.id)
+            if not hasattr(self, "_rectypes"):
+                self._rectypes = module_record_types(self.model)
+            if e.id in self._rectypes:
+                return RecordType(e.id, self._rectypes[e.id])
             for (fl, nm), fdef in self.model.functions.items():
                 if nm == e.id and fl.startswith("PyXAB/partition/"):
                     return BoundMethod(None, fdef, None)
@@ -834,6 +891,10 @@ class Interp:
     def getattr(self, o, attr, node):
         if isinstance(o, Namespace):
             return Namespace(o.name + "." + attr)
+        if isinstance(o, ARecord):
+            if attr in o.fields:
+                return o[o.fields.index(attr)]
+            raise PathCrash("AttributeError: record has no field %r" % attr)
         if isinstance(o, Obj):
             if attr in o.f:
                 return o.f[attr]
@@ -893,6 +954,9 @@ class Interp:
 
     def getitem(self, o, i, node):
         if isinstance(o, LayerTable):
+            got = o.resolve(i)
+            if got is not None:
+                return got
             return LayerSlot(o, i)
         if isinstance(o, LayerSlot):
             raise Unsupported("reading an element of an abstract layer")
@@ -951,6 +1015,11 @@ class Interp:
     def call(self, f, args, kw, node, env):
         if isinstance(f, BoundMethod):
             return self.call_function(f.fn, f.obj, args, kw, owner=f.owner)
+        if isinstance(f, RecordType):
+            if len(args) + len(kw) != len(f.fields) or any(k not in f.fields[len(args):] for k in kw):
+                raise PathCrash("TypeError: %s() arguments do not match its fields" % f.name)
+            vals = list(args) + [kw[k] for k in f.fields[len(args):]]
+            return ARecord(vals, f.fields)
         if isinstance(f, ClassRef):
             if f.name not in self.model.classes:
                 raise Unsupported("class %s" % f.name)
@@ -998,10 +1067,14 @@ class Interp:
             if isinstance(t, LayerTable):
                 if m == "append":
                     self.events.append(("append", args[0], node))
+                    if isinstance(args[0], AList):
+                        t.appended.append(args[0])
                     return None
                 if m == "extend":
                     for layer in self.as_iter(args[0]):
                         self.events.append(("append", layer, node))
+                        if isinstance(layer, AList):
+                            t.appended.append(layer)
                     return None
                 if m == "insert":
                     self.events.append(("insert", args[0], args[1], node))
@@ -1052,6 +1125,8 @@ class Interp:
         if n == "len":
             v = args[0]
             if isinstance(v, LayerTable):
+                if v.base_depth is not None:
+                    return self.arith(ast.Add(), v.base_depth, 1 + len(v.appended))
                 d = self.partition_depth()
                 return self.arith(ast.Add(), d, 1)
             if isinstance(v, Lin):
